@@ -8,7 +8,7 @@ import subprocess
 import sys
 from pathlib import Path
 
-ROOT = Path("/verif")
+ROOT = Path(os.environ.get("VERIF_ROOT", "/verif"))
 WT = "/tmp/seedwt"
 EXTRA = {"C14-components-abs-threshold": [("C14", "thorough")]}
 ALSO = {  # further properties whose quick check is expected/observed to notice the change
@@ -48,7 +48,7 @@ def main():
                 rows.append((name, prop, "PATCH DOES NOT APPLY", ""))
                 continue
             detected = []
-            runs = [(prop, "quick")] + EXTRA.get(name, []) + [(p, "quick") for p in ALSO.get(name, [])]
+            runs = [(prop, "quick")] + EXTRA.get(name, []) + ([] if os.environ.get("MATRIX_NO_ALSO") else [(p, "quick") for p in ALSO.get(name, [])])
             for p, tier in runs:
                 env = dict(os.environ, GEOMETER_SRC=WT)
                 out = sh(str(ROOT / "bin" / "check"), p, tier, env=env, cwd=str(ROOT))
